@@ -100,6 +100,13 @@ func (c *regexpSimplifyChecker) simplify(pass int, pat string) string {
 		return ""
 	}
 
+	if c.hasLiteralBrace(re.Expr) {
+		// Next to a literal `{` or `}`, dropping an escape, a char class or
+		// a group can form a repetition: `a{2[,]3}` is not `a{2,3}`,
+		// `a(?:{)2}` is not `a{2}`.
+		return ""
+	}
+
 	c.score = 0
 	c.out.Reset()
 
@@ -387,6 +394,23 @@ func (c *regexpSimplifyChecker) canMerge(x, y syntax.Expr) bool {
 	default:
 		return false
 	}
+}
+
+// hasLiteralBrace reports whether e contains a `{` or `}` that is
+// an ordinary character (outside of a char class).
+func (c *regexpSimplifyChecker) hasLiteralBrace(e syntax.Expr) bool {
+	switch e.Op {
+	case syntax.OpCharClass, syntax.OpNegCharClass:
+		return false
+	case syntax.OpChar:
+		return e.Value == "{" || e.Value == "}"
+	}
+	for _, a := range e.Args {
+		if c.hasLiteralBrace(a) {
+			return true
+		}
+	}
+	return false
 }
 
 // canMatchEmpty reports whether e may match an empty string.
